@@ -84,6 +84,53 @@ class TupleRoundTrip(Instance):
         return s["packed"] == n.get("packed") and s["unpacked"] == n.get("unpacked")
 
 
+class RefSegment(Instance):
+    """compress_reference_segment / compress_segment_configured + decompress_segment_with_marker with ZSTD as a lossless stub
+    whose frame size is a free choice (small or worst case): marker in {0,1}, marker 1 <=> tuple-packed payload,
+    decompression with the stored marker returns the data."""
+    def __init__(self, name, maxlen, alpha):
+        Instance.__init__(self, name)
+        self.maxlen, self.alpha = maxlen, alpha
+        self.required_witnesses = ("marker0", "marker1", "empty")
+        self.bounds = {"data": f"every byte string of length 0..{maxlen} over {alpha} (both sides of the 0.5 repetitiveness threshold)", "zstd": "abstract lossless codec, frame size n+1 or compress_bound(n)"}
+
+    def path(self, e):
+        n = e.choose(self.maxlen + 1, "n")
+        d = e.sym_bytes("d", n, among=self.alpha)
+        r = e.call_fn(CORE, "compress_reference_segment", [Ref(Cell(VecObj(list(d))))])
+        e.prove(r.variant == 0, "seg:compress_failed", "compress_reference_segment returned Err")
+        comp, marker = r.f[0].f[0], r.f[0].f[1]
+        e.prove(marker.conc() and marker.v in (0, 1), "seg:marker", "marker byte is not 0 or 1")
+        e.witness(f"marker{marker.v}")
+        if n == 0:
+            e.witness("empty")
+        from mirsym.models_io import zstd_decode_all
+        payload = zstd_decode_all(e, "zstd::decode_all::<&[u8]>", [e.as_slice(Ref(Cell(comp)))])
+        pb = e.vec_items(payload.f[0])
+        if marker.v == 1:
+            exp = e.vec_items(e.call_fn(CORE, "bytes_to_tuples", [e.slice_of(d)]))
+            e.prove(e.eq_bytes(pb, exp), "seg:marker", "marker 1 but the payload is not the tuple-packed data")
+        else:
+            e.prove(e.eq_bytes(pb, d), "seg:marker", "marker 0 but the payload is not the plain data")
+        back = e.call_fn(CORE, "decompress_segment_with_marker", [e.as_slice(Ref(Cell(comp))), marker])
+        e.prove(back.variant == 0, "seg:roundtrip", "decompress_segment_with_marker failed on compress_reference_segment output")
+        bb = e.vec_items(back.f[0])
+        e.prove(len(bb) == n and e.eq_bytes(bb, d), "seg:roundtrip", "decompress(compress(data), marker) != data")
+        # delta packs: plain path
+        r2 = e.call_fn(CORE, "compress_segment_configured", [Ref(Cell(VecObj(list(d)))), Int(32, 1, 17)])
+        e.prove(r2.variant == 0, "seg:compress_failed", "compress_segment_configured returned Err")
+        b2 = e.call_fn(CORE, "decompress_segment_with_marker", [e.as_slice(Ref(Cell(r2.f[0]))), Int(8, 0, 0)])
+        if n > 0:
+            e.prove(b2.variant == 0 and e.eq_bytes(e.vec_items(b2.f[0]), d), "seg:roundtrip", "delta-pack compression is not inverted by decompression with marker 0")
+        return None
+
+    def classify_panic(self, e, ex):
+        return f"seg:panic:{ex.where.split('::')[-1]}:{ex.kind}", str(ex)
+
+    def native(self, inp):
+        return "refseg_roundtrip", {"d": inp.get("d", [])}
+
+
 INSTANCES = {}
 
 
@@ -94,9 +141,11 @@ def _reg(i):
 
 _reg(TupleRoundTrip("tuple_q", 9))
 _reg(TupleRoundTrip("tuple_t", 14))
+_reg(RefSegment("refseg_q", 6, [0, 1, 4, 30]))
+_reg(RefSegment("refseg_t", 8, [0, 1, 2, 3, 4, 30]))
 
 
 def run(ctx):
-    insts = [INSTANCES["tuple_q"]] if ctx["tier"] == "quick" else [INSTANCES["tuple_t"]]
+    insts = [INSTANCES["tuple_q"], INSTANCES["refseg_q"]] if ctx["tier"] == "quick" else [INSTANCES["tuple_t"], INSTANCES["refseg_t"]]
     return run_instances("C12", "harness.C12", insts, ctx,
                          assumptions=["libzstd is lossless and context reuse does not change output (ZSTD is C code behind FFI: abstract lossless codec stub)"])
